@@ -221,7 +221,7 @@ def numeric_atoms(rng: random.Random, v: str, *, rich: bool = True) -> dict:
     n = q(v)
     table = [
         ("lookup", 6), ("center", 4), ("scale", 3), ("standardize", 2), ("poly", 3), ("bs", 3), ("cr", 2), ("cc", 1), ("cs", 1),
-        ("I", 2), ("np", 2), ("brace", 1), ("Q", 1), ("Cnum", 1), ("scale_nc", 1), ("usr_center", 1.5), ("usr_sq", 1), ("usr_offset", 0.7), ("nested", 2.5),
+        ("I", 2), ("np", 2), ("brace", 1), ("Q", 1), ("Cnum", 1), ("scale_nc", 1), ("usr_center", 1.5), ("usr_sq", 1), ("usr_offset", 0.7), ("nested", 2.5), ("attr_alias", 1.2),
     ]
     kind = core.weighted(rng, table if rich else table[:4])
     a: dict[str, Any] = {"vars": [v], "kind": "num", "cls": "num_py", "stateful": False, "bounded": False, "mean_based": False}
@@ -269,6 +269,9 @@ def numeric_atoms(rng: random.Random, v: str, *, rich: bool = True) -> dict:
         a.update(expr=rng.choice([f"scale(center({n}))", f"I(center({n}) ** 2)", f"exp(scale({n}) / 4)", f"np.abs(standardize({n}))",
                                   f"poly(center({n}), degree=2)", f"center(log({n} * {n} + 1))", f"I(scale({n}, center=False) + poly({n})[:, 0])"]),
                  stateful=True, mean_based=True)
+    elif kind == "attr_alias":
+        # a built-in stateful transform reached through an attribute of an object in the caller's context
+        a.update(expr=rng.choice([f"ft.center({n})", f"ft.scale({n})", f"ft.poly({n}, 2)", f"ft.bs({n}, df=4, extrapolation='clip')"]), stateful=True, mean_based=True, ctx=True)
     elif kind == "usr_center":
         a.update(expr=f"usr_center({n})", stateful=True, mean_based=True, ctx=True)
     elif kind == "usr_sq":
@@ -291,7 +294,12 @@ def user_context() -> dict:
             _state["m"] = float(np.nanmean(data))
         return data - _state["m"]
 
-    return {"usr_center": usr_center, "usr_sq": (lambda x: x * x), "usr_offset": 1.5}
+    import types
+
+    from formulaic.transforms import basis_spline, center, poly, scale
+
+    ft = types.SimpleNamespace(center=center, scale=scale, poly=poly, bs=basis_spline)
+    return {"usr_center": usr_center, "usr_sq": (lambda x: x * x), "usr_offset": 1.5, "ft": ft}
 
 
 CONTRASTS = [
